@@ -163,12 +163,20 @@ func (el *eventloop) cread(c *conn) error {
 			for _, f := range r.Body {
 				f.Done = true
 			}
-			// Encode data and try to write it back to the peer, this attempt is based on a fact:
-			// the peer socket waits for the response data after sending request data to the server,
-			// which makes the peer socket writable.
-			MsgPool.Put(r)
-			if _, err = c.write(out); err != nil {
-				return err
+			if !c.inMsgQueue.Empty() {
+				// earlier requests are still waiting for their backends: queue the local reply
+				// as an already completed request so that it is delivered in pipeline order
+				r.RspBody = append(r.RspBody[:0], out...)
+				r.Done = true
+				c.EnqueueInMsg(r)
+			} else {
+				// Encode data and try to write it back to the peer, this attempt is based on a fact:
+				// the peer socket waits for the response data after sending request data to the server,
+				// which makes the peer socket writable.
+				MsgPool.Put(r)
+				if _, err = c.write(out); err != nil {
+					return err
+				}
 			}
 		}
 		switch action {
